@@ -82,3 +82,16 @@ void x_ecDblA(word* b, const word* a, const ec_o* ec, void* st) { ecDblA(b, a, e
 void x_ecTpl(word* b, const word* a, const ec_o* ec, void* st) { ec->tpl(b, a, ec, st); }
 void x_ecSetO(word* a, const ec_o* ec) { ecSetO(a, ec); }
 bool_t x_ecIsO(const word* a, const ec_o* ec) { return ecIsO(a, ec); }
+
+/* ---- btok password automaton: one transition on a fresh struct */
+#include "bee2/crypto/btok.h"
+unsigned x_pwd(unsigned pin, unsigned auth, unsigned event)
+{
+	btok_pwd_state st;
+	bool_t ok;
+	memset(&st, 0, sizeof(st));
+	st.pin = (btok_pin_state)pin;
+	st.auth = (btok_auth_state)auth;
+	ok = btokPwdTransition(&st, (btok_pwd_event)event);
+	return (ok ? 0x10000u : 0) | ((unsigned)st.pin << 8) | (unsigned)st.auth;
+}
